@@ -1471,7 +1471,7 @@ func genC16(r *Rand, flavour int, tier string) c16Input {
 }
 
 func (c16Driver) Gen(r *Rand, tier string) []json.RawMessage {
-	n := 420
+	n := 840
 	if tier == "thorough" {
 		n *= 20
 	}
